@@ -302,7 +302,7 @@ func (f *Frame) checkAllocLimit(x *ssa.MakeSlice, ln string, reach string) {
 		if strings.HasPrefix(a.Anchor, "make") {
 			env := f.specEnv(f.entry, f.entry, nil)
 			env.vars["size"] = sval{t: ln, sort: "Int"}
-			g, err := env.evalBool(a.E)
+			g, err := env.evalGoal(a.E)
 			if err != nil {
 				f.bail("alloc-limit %q: %v", a.Text, err)
 			}
